@@ -1028,6 +1028,13 @@ class Engine:
                 return za - zb
             if op in ("Mul", "MulUnchecked"):
                 return za * zb
+            if op in ("Div", "Rem"):
+                # machine integer division truncates; operands here are counts (non-negative), where it equals z3's div/mod
+                if self.ctx is not None and self.ctx.branch(zb == 0, "division by zero"):
+                    raise PanicPath("attempt to divide by zero")
+                if self.ctx is not None:
+                    self.ctx.assume(z3.And(za >= 0, zb > 0))
+                return za / zb if op == "Div" else za % zb
             if op in ("Lt", "Le", "Gt", "Ge", "Eq", "Ne"):
                 return {"Lt": za < zb, "Le": za <= zb, "Gt": za > zb, "Ge": za >= zb, "Eq": za == zb, "Ne": za != zb}[op]
         if isinstance(a, Enum) and isinstance(b, Enum) and op in ("Eq", "Ne"):
